@@ -525,5 +525,99 @@ def replay_relogin(case):
     judge_relogin(c, simnet.run(lambda loop: _relogin(loop, *c)))
 
 
+# ---------------------------------------------------------------- a limit switched on while sessions exist
+async def _setter(loop, direction, level, n_before, L, size):
+    loop.net.fixed_latency = 0.0
+    loop.net.fixed_segment = 1 << 30
+    server = aioftp.Server(path_io_factory=aioftp.MemoryPathIO, block_size=256)
+    await server.start(HOST, PORT)
+    payload = bytes(i % 251 for i in range(size))
+    harness.mem_populate(server, {"/": DIR, **{"/f%d" % i: payload for i in range(n_before + 1)}})
+    clients = []
+    for i in range(n_before):
+        c = aioftp.Client(path_io_factory=aioftp.MemoryPathIO)
+        await c.connect(HOST, PORT)
+        await c.login()
+        clients.append(c)
+    attr = "write" if direction == "down" else "read"
+    target = server.throttle_per_connection if level == "per_connection" else server.throttle
+    getattr(target, attr).limit = L
+    late = aioftp.Client(path_io_factory=aioftp.MemoryPathIO)
+    await late.connect(HOST, PORT)
+    await late.login()
+    clients.append(late)
+
+    async def one(i, c):
+        t0 = loop.time()
+        if direction == "down":
+            async with c.download_stream("/f%d" % i) as st_:
+                data = await st_.read()
+            ok = data == payload
+        else:
+            async with c.upload_stream("/u%d" % i) as st_:
+                for k in range(0, size, 256):
+                    await st_.write(payload[k:k + 256])
+            ok = True
+        return loop.time() - t0, ok
+
+    res = await asyncio.gather(*[one(i, c) for i, c in enumerate(clients)])
+    for c in clients:
+        c.close()
+    await asyncio.wait_for(server.close(), 1000)
+    return dict(durations=[r[0] for r in res], ok=all(r[1] for r in res))
+
+
+def setter_cases(tier):
+    out = []
+    for direction in ("down", "up"):
+        for level in ("per_connection", "server"):
+            for n_before in (1, 2, 3):
+                for L, size in ((2000, 6000), (500, 2000)) + (((10000, 30000),) if tier == "thorough" else ()):
+                    out.append((direction, level, n_before, L, size))
+    return out
+
+
+def judge_setter(case, out):
+    direction, level, n_before, L, size = case
+    detail = dict(direction=direction, level=level, sessions_connected_before_the_setter=n_before, limit=L, size=size,
+                  durations=[round(d, 3) for d in out["durations"]])
+    if not out["ok"]:
+        raise Violation(f"C15/setter/{direction}/bytes_differ", detail)
+    n = n_before + 1
+    slack = (3 * 256 + 600) / L
+    if level == "per_connection":
+        # per-connection limits are independent: no stream may take longer than its own size / L (it may be faster: whether
+        # a limit set later reaches a stream that already exists is not specified)
+        for d in out["durations"]:
+            if d > size / L + slack + 1e-6:
+                raise Violation(f"C15/setter/{direction}/per_connection_limits_not_independent", dict(detail, bound=size / L + slack))
+        # the session connected after the setter is limited
+        if size > 3 * 256 and out["durations"][-1] < (size - 3 * 256 - 600) / L - 1e-6:
+            raise Violation(f"C15/setter/{direction}/new_session_runs_ahead_of_the_limit", dict(detail, minimum=(size - 3 * 256 - 600) / L))
+    else:
+        # a shared limit bounds the sum: all n streams together need at least (n * size - slack bytes) / L
+        total = n * size
+        if max(out["durations"]) < (total - n * (3 * 256) - 600) / L - 1e-6:
+            raise Violation(f"C15/setter/{direction}/shared_limit_overrun", dict(detail, minimum=(total - n * 768 - 600) / L))
+        if max(out["durations"]) > total / L + n * slack + 1e-6:
+            raise Violation(f"C15/setter/{direction}/extra_delay", dict(detail, bound=total / L + n * slack))
+
+
+def part_setter(ctx):
+    for case in setter_cases(ctx.tier)[ctx.shard::ctx.nshards]:
+        out = simnet.run(lambda loop: _setter(loop, *case))
+        ctx.count(case, True, sample=dict(direction=case[0], level=case[1], sessions_before_setter=case[2], limit=case[3], size=case[4],
+                                          durations=[round(d, 3) for d in out["durations"]]), classes=["setter_" + case[1], "setter_" + case[0]])
+        try:
+            judge_setter(case, out)
+        except Violation as v:
+            ctx.fail(v.sig, dict(kind="setter", case=list(case)), v.detail)
+
+
+def replay_setter(case):
+    c = tuple(case["case"])
+    judge_setter(c, simnet.run(lambda loop: _setter(loop, *c)))
+
+
 def plan(tier):
-    return [("api", 8), ("e2e", 6), ("relogin", 2)]
+    return [("api", 8), ("e2e", 6), ("relogin", 2), ("setter", 2)]
